@@ -25,6 +25,8 @@ package influxql
 //@   entrylet ev = call("(*ValuerEval).evalBinaryExpr", mkobj(ValuerEval, IntegerFloatDivision, true), mkobj(BinaryExpr, Op, op, LHS, lhs, RHS, rhs))
 //@   ensures !istype(result, *BinaryExpr) && spec_isBoolLit(rhs) ==> spec_litval(result) == ev
 //@   ensures istype(result, *BinaryExpr) ==> result.(*BinaryExpr).Op == op
+//@   ensures notnil(result)
+//@   ensures !istype(result, *ParenExpr)
 
 //@ func reduceBinaryExprIntegerLHS
 //@   props C09
@@ -32,6 +34,8 @@ package influxql
 //@   entrylet ev = call("(*ValuerEval).evalBinaryExpr", mkobj(ValuerEval, IntegerFloatDivision, true), mkobj(BinaryExpr, Op, op, LHS, lhs, RHS, rhs))
 //@   ensures !istype(result, *BinaryExpr) && spec_isNumLit(rhs) ==> spec_litval(result) == ev
 //@   ensures istype(result, *BinaryExpr) ==> result.(*BinaryExpr).Op == op
+//@   ensures notnil(result)
+//@   ensures !istype(result, *ParenExpr)
 
 //@ func reduceBinaryExprUnsignedLHS
 //@   props C09
@@ -39,6 +43,8 @@ package influxql
 //@   entrylet ev = call("(*ValuerEval).evalBinaryExpr", mkobj(ValuerEval, IntegerFloatDivision, true), mkobj(BinaryExpr, Op, op, LHS, lhs, RHS, rhs))
 //@   ensures !istype(result, *BinaryExpr) && spec_isNumLit(rhs) ==> spec_litval(result) == ev
 //@   ensures istype(result, *BinaryExpr) ==> result.(*BinaryExpr).Op == op
+//@   ensures notnil(result)
+//@   ensures !istype(result, *ParenExpr)
 
 //@ func reduceBinaryExprNumberLHS
 //@   props C09
@@ -46,13 +52,17 @@ package influxql
 //@   entrylet ev = call("(*ValuerEval).evalBinaryExpr", mkobj(ValuerEval, IntegerFloatDivision, true), mkobj(BinaryExpr, Op, op, LHS, lhs, RHS, rhs))
 //@   ensures !istype(result, *BinaryExpr) && spec_isNumLit(rhs) ==> spec_litval(result) == ev
 //@   ensures istype(result, *BinaryExpr) ==> result.(*BinaryExpr).Op == op
+//@   ensures notnil(result)
+//@   ensures !istype(result, *ParenExpr)
 
 // Strings: text equality. Two operands that both look like time literals are
 // compared as instants by the folder but as text by the evaluator (finding F-C09-1);
 // the first clause excludes that case, the second one states the property as given.
 //@ func reduceBinaryExprStringLHS
 //@   props C09
+//@   ensures notnil(result)
+//@   ensures !istype(result, *ParenExpr)
 //@   requires lhs != nil && rhs != nil
 //@   entrylet ev = call("(*ValuerEval).evalBinaryExpr", mkobj(ValuerEval, IntegerFloatDivision, true), mkobj(BinaryExpr, Op, op, LHS, lhs, RHS, rhs))
 //@   ensures !istype(result, *BinaryExpr) && spec_isStrLit(rhs) && (op == EQ || op == NEQ) && !(call("(*StringLiteral).IsTimeLiteral", lhs) && call("(*StringLiteral).IsTimeLiteral", rhs.(*StringLiteral))) ==> spec_litval(result) == ev
-//@   ensures !istype(result, *BinaryExpr) && spec_isStrLit(rhs) && (op == EQ || op == NEQ) ==> spec_litval(result) == ev
+//@   claims @timelike !istype(result, *BinaryExpr) && spec_isStrLit(rhs) && (op == EQ || op == NEQ) ==> spec_litval(result) == ev
